@@ -75,6 +75,12 @@ class LiteDRAMWishbone2Native(LiteXModule):
         ]
         fsm.act("WRITE",
             NextValue(aborted, ~wishbone.cyc | aborted),
+            # The command has already been issued: if the master dropped the cycle, complete the data phase
+            # with all bytes masked instead of waiting for (and consuming) the data of a later access.
+            If(~wishbone.cyc | aborted,
+                port.wdata.valid.eq(1),
+                port.wdata.we.eq(0),
+            ),
             If(port.wdata.valid & port.wdata.ready,
                 wishbone.ack.eq(wishbone.cyc & ~aborted),
                 NextState("CMD")
